@@ -32,6 +32,9 @@ def check(ctx: Ctx, rep: Report, thorough: bool = False):
     rep.rule("C15.R1", "keys of read_runtime_data() equal the ids of sensors() right after the call, on every returning path of every configuration", 12)
     rep.rule("C15.R2", "with any subset of optional blocks refused, read_runtime_data() returns no later than the second call", 12)
     rep.rule("C15.R3", "ES: sensors() and read_runtime_data() name the same table", 1)
+    rep.rule("C15.R4", "sensors() answers from the current flags and tables: a result it remembers is dropped by every method that changes what it depends on", 2)
+    for famname in ("ET", "DT"):
+        memo_coherence(ctx, rep, famname)
     total_states = total_paths = 0
     for famname in ("ET", "DT"):
         fam = family_ctx(ctx, famname)
@@ -198,6 +201,56 @@ def r3(ctx: Ctx, rep: Report):
     ret_data = any(isinstance(n, ast.Return) and n.value is not None for n in ast.walk(r.node))
     rep.check(ok and ret_data, "C15.R3", "es-same-table", r.loc(), "ES.read_runtime_data maps %s, sensors() returns it" % (norm(rets[0].value) if rets else "?"),
               bad="ES.sensors() returns %s but read_runtime_data() maps %s" % (norm(rets[0].value) if rets else "?", norm(maps[0].args[1]) if maps else "?"))
+
+
+def memo_coherence(ctx: Ctx, rep: Report, famname: str):
+    """If sensors() stores attributes (a memo of its own result), then every method that writes one of the attributes
+    sensors() reads must, on every path, reset a memo attribute to None after its last such write - otherwise sensors()
+    keeps answering with a tuple computed from tables that have since been narrowed."""
+    import ast
+    from ..astutil import self_store
+    from ..paths import enumerate_paths, no_raise
+    from ..model import norm
+    prog = ctx.prog
+    ci = prog.cls(famname)
+    fn = ci.methods.get("sensors")
+    if fn is None:
+        raise AnalysisError("%s.sensors not found" % famname)
+    memo = sorted({a for n in ast.walk(fn.node) if isinstance(n, ast.stmt) for a, _, _ in self_store(n)})
+    key = "memo:%s" % famname
+    if not memo:
+        rep.ok("C15.R4", key, fn.loc(), "%s.sensors() stores nothing: it is recomputed from the flags and tables on every call" % famname)
+        return
+    deps = {n.attr for n in ast.walk(fn.node) if isinstance(n, ast.Attribute) and isinstance(n.value, ast.Name) and n.value.id == "self"
+            and isinstance(n.ctx, ast.Load)} - set(memo)
+    # inputs that are part of the memo's key (compared with a memo attribute) invalidate it by themselves
+    from ..astutil import expand_locals
+    for n in ast.walk(fn.node):
+        if isinstance(n, ast.Compare) and len(n.ops) == 1 and isinstance(n.ops[0], (ast.Eq, ast.NotEq)):
+            sides = [expand_locals(n.left, fn.node), expand_locals(n.comparators[0], fn.node)]
+            if any(isinstance(x, ast.Attribute) and isinstance(x.value, ast.Name) and x.value.id == "self" and x.attr in memo for x in sides):
+                for side in sides:
+                    deps -= {x.attr for x in ast.walk(side) if isinstance(x, ast.Attribute) and isinstance(x.value, ast.Name) and x.value.id == "self"}
+    fam = family_ctx(ctx, famname)
+    for m in ci.methods.values():
+        if m.name == "__init__" or m is fn:
+            continue
+        if not any(a in deps for n in ast.walk(m.node) if isinstance(n, ast.stmt) for a, _, _ in self_store(n)):
+            continue
+        paths = fam.paths(m.name) if m.name in ("read_device_info", "read_runtime_data") else enumerate_paths(prog, m, no_raise)
+        bad = None
+        for p in paths:
+            last_w = max((i for i, ev in enumerate(p.events) if ev.kind == "stmt" and any(a in deps for a, _, _ in self_store(ev.node))), default=-1)
+            if last_w < 0:
+                continue
+            reset = any(ev.kind == "stmt" and any(a in memo and isinstance(v, ast.Constant) and v.value is None for a, v, _ in self_store(ev.node))
+                        for ev in p.events[last_w + 1:])
+            if not reset:
+                bad = (p, p.events[last_w].node)
+                break
+        rep.check(bad is None, "C15.R4", "%s:%s" % (key, m.name), m.loc(), "%s.%s drops the remembered sensors() result (%s) after changing its inputs" % (famname, m.name, memo),
+                  bad="%s.%s changes %s, which sensors() reads, and does not reset its memo %s: sensors() keeps listing the old set while read_runtime_data() reports the new one [path %s]" % (
+                      famname, m.name, norm(bad[1])[:60] if bad else "", memo, bad[0].describe(6) if bad else ""))
 
 
 def check_thorough(ctx: Ctx, rep: Report):
